@@ -161,6 +161,10 @@ CORPUS = [
     (B, "C11", "constitution/tensortrax/models/hyperelastic/microsphere/_framework_affine.py",
      "    λa = det(C) ** (1 / 6) * sqrt(einsum(\"ai,ij...,aj->a...\", r, inv(C), r))\n    ψa, statevars_new", "    λa = sqrt(det(C) ** (1 / 6) * einsum(\"ai,ij...,aj->a...\", r, inv(C), r))\n    ψa, statevars_new"),
     (B, "C18", "mechanics/_free_vibration.py", "        values = np.zeros(sum(field.fieldsizes))\n", "        values = np.concatenate([f.values.ravel() for f in field.fields]).astype(float)\n"),
+    (B, "C13", "region/_boundary.py", "        if mesh is not None and not hasattr(mesh, \"cells_faces\"):\n            mesh = self._mesh_boundary_cells(mesh)\n", ""),
+    (B, "C20", "tools/_save.py", "    point_data = dict(point_data)\n", ""),
+    (B, "C17,C16", "math/_spatial.py", "        if axis < 0:\n            axis += 3\n", ""),
+    (B, "C08", "mesh/_dual.py", "        points_new = np.pad(points_new, ((0, npoints - len(points_new)), (0, 0)))", "        points_new = np.pad(points_new, ((npoints - len(points_new), 0), (0, 0)))"),
     (K, "C18", "mechanics/_free_vibration.py", "        dof0, self.dof1 = partition(x, self.boundaries)", "        self.dof0, self.dof1 = partition(x, self.boundaries)"),
     (K, "C11", "constitution/tensortrax/models/hyperelastic/microsphere/_framework_affine.py",
      "    λa = det(C) ** (1 / 6) * sqrt(einsum(\"ai,ij...,aj->a...\", r, inv(C), r))\n    ψa, statevars_new", "    λa = sqrt(det(C) ** (1 / 3) * einsum(\"ai,ij...,aj->a...\", r, inv(C), r))\n    ψa, statevars_new"),
